@@ -14,6 +14,7 @@ import (
 	"os"
 	"os/exec"
 	"path/filepath"
+	"runtime/debug"
 	"sort"
 	"strconv"
 	"strings"
@@ -331,13 +332,52 @@ func budget(ck *Check, tier string) time.Duration {
 func worker(ck *Check, tier string, seed int64, shard, n int, out string) {
 	start := time.Now()
 	c := newCtx(ck.ID, tier, seed, shard, n, start.Add(budget(ck, tier)))
-	ck.Run(c)
+	run := func() {
+		// A panic raised by the library itself while a check calls it directly (the codec checks do) is a finding,
+		// not a broken harness: report it, and record that this shard stopped there. Anything else still crashes.
+		defer func() {
+			r := recover()
+			if r == nil {
+				return
+			}
+			stack := string(debug.Stack())
+			where := ""
+			for _, l := range strings.Split(stack, "\n") {
+				if strings.HasPrefix(l, "\t") || strings.HasPrefix(l, "goroutine ") || strings.HasPrefix(l, "runtime") || strings.HasPrefix(l, "panic(") {
+					continue
+				}
+				if strings.HasPrefix(l, "verif/fw.worker") || strings.HasPrefix(l, "runtime/debug.Stack") {
+					continue
+				}
+				if strings.HasPrefix(l, "github.com/dgrr/http2.") {
+					where = l
+				}
+				break
+			}
+			if where == "" {
+				panic(fmt.Sprintf("%v\n%s", r, stack))
+			}
+			if i := strings.IndexByte(where, '('); i > 0 && !strings.HasPrefix(where[i:], "(*") {
+				where = where[:i]
+			}
+			if len(stack) > 3000 {
+				stack = stack[:3000] + "…"
+			}
+			c.Violate(Violation{Rule: "library-panic", Shape: where, Detail: fmt.Sprintf("the library panicked when called by the check: %v\n%s", r, stack), Replay: map[string]any{"family": "library-panic", "note": "not replayable on its own: re-run the check"}})
+			c.mu.Lock()
+			c.Exhaustive = false
+			c.Capped = append(c.Capped, fmt.Sprintf("shard %d stopped at a panic in the library", shard))
+			c.mu.Unlock()
+		}()
+		ck.Run(c)
+	}
+	run()
 	// event-level checks run their families again under the alternative internal schedules: between two
 	// environment events the goroutines of the implementation are then interleaved the other way round
 	for p := 1; p <= ck.Policies && SetPolicy != nil; p++ {
 		SetPolicy(p)
 		c.policy = p
-		ck.Run(c)
+		run()
 	}
 	if SetPolicy != nil {
 		SetPolicy(0)
